@@ -9,3 +9,4 @@ INVARIANT FitsIsGranted
 INVARIANT FreedIsReusable
 INVARIANT DoubleFreeNoOp
 INVARIANT EmptyMeansAll
+INVARIANT FreeAllFreesAll
